@@ -108,4 +108,51 @@ Measure(a, r) ==
   /\ \A i \in DOMAIN r.checks :
        IF r.checks[i].ok THEN TRUE
        ELSE PrintT(<<"CONTRACT-FAIL", "C18." \o r.checks[i].n>>) /\ FALSE
+
+\* ---- C17 ------------------------------------------------------------------------
+Pow(b, e) == IF e = 0 THEN 1 ELSE LET RECURSIVE P(_) P(k) == IF k = 0 THEN 1 ELSE b * P(k - 1) IN P(e)
+L1(a, b) == Sum([j \in DOMAIN a |-> Abs(a[j] - b[j])])
+
+\* table[k] = index of the k-th grid cell in lexicographic order; curve = cells by increasing index
+Hilbert(a, r) ==
+  LET D == a.D  side == Pow(2, a.bits)  N == Pow(side, D)
+      CellIndex(c) == 1 + Sum([j \in 1..D |-> c[j] * Pow(side, D - j)])
+  IN
+  /\ Chk("C17.hilbert table refused", r.kind = "Ok")
+  /\ Chk("C17.hilbert table size", Len(r.table) = N /\ Len(r.curve) = N)
+  /\ Chk("C17.hilbert cells", \A i \in 1..N : Len(r.curve[i]) = D /\ \A j \in 1..D : r.curve[i][j] \in 0..(side - 1))
+  /\ Chk("C17.hilbert index is not injective", Cardinality({r.curve[i] : i \in 1..N}) = N)
+  /\ Chk("C17.hilbert index range is not 0..N-1", \A i \in 1..N : r.table[CellIndex(r.curve[i])] = i - 1)
+  /\ Chk("C17.consecutive hilbert indices are not adjacent cells",
+         \A i \in 1..(N - 1) : L1(r.curve[i], r.curve[i + 1]) = 1)
+  /\ Chk("C17.float entry point disagrees with the table", r.float_ok)
+
+Order(a, r) ==
+  LET ids == {a.input[i].id : i \in DOMAIN a.input}  n == Len(a.input) IN
+  /\ Chk("C19.panic in ordering", Len(r.outs) > 0)
+  /\ \A k \in DOMAIN r.outs :
+       Chk("C17.ordering is not a permutation",
+           Len(r.outs[k].out) = n /\ Range(r.outs[k].out) = ids)
+  /\ Chk("C17.balanced simplex indices",
+         Len(r.balanced) = 0 \/ (Len(r.balanced) = a.D + 1 /\ Cardinality(Range(r.balanced)) = a.D + 1
+                                 /\ Range(r.balanced) \subseteq 1..n))
+
+Dedup(a, r) ==
+  LET n == Len(a.input)
+      H == [x \in {a.input[i].id : i \in 1..n} |-> (CHOOSE y \in Range(a.input) : y.id = x).h]
+      ids == DOMAIN H
+      e2 == a.eh * a.eh
+  IN
+  /\ Chk("C19.panic in dedup", Len(r.outs) > 0)
+  /\ \A k \in DOMAIN r.outs :
+       LET o == r.outs[k]  S == Range(o.out) IN
+       /\ Chk("C17.dedup invents or duplicates a vertex", S \subseteq ids /\ Cardinality(S) = Len(o.out))
+       /\ o.kind = "exact" =>
+            Chk("C17.exact dedup: one representative per coordinate tuple",
+                {H[x] : x \in S} = {H[x] : x \in ids} /\ Cardinality(S) = Cardinality({H[x] : x \in ids}))
+       /\ o.kind = "eps" =>
+            /\ Chk("C17.epsilon dedup: two survivors within the tolerance",
+                   \A x, y \in S : x # y => Dist2(H[x], H[y]) >= e2)
+            /\ Chk("C17.epsilon dedup: dropped vertex not within the tolerance of a survivor",
+                   \A x \in ids \ S : \E y \in S : Dist2(H[x], H[y]) < e2)
 =============================================================================
